@@ -313,6 +313,43 @@ Proof.
   - destruct Hc as (Hst & Ep & _). eapply Hb; eauto.
 Qed.
 
+(* C02 with a filter: the transfer reaches the fixpoint OF THE FILTERED COMPARISON.  After a
+   transfer through the filter the destination, listed again, shows at every path the identity
+   key of the FILTERED source entry — what landed is what the differ compares with — so a second
+   synchronisation of the unchanged source through the same filter hands nothing to the writer:
+   no request, no notification, nothing touched.  ([links_meta] on the filtered source: the
+   filter treats the names of one inode alike.) *)
+Theorem resync_after_transfer_noop_f_proof :
+  links_meta B' ->
+  let A' := dest_listing B (ds_map r) in
+  receive_abs_f wf H hdr Fresh DMetadata A' B =
+  {| ds_map := dest_of A'; ds_reqs := []; ds_notifs := []; ds_changes := []; ds_err := false |}.
+Proof.
+  intros Hm. cbv zeta.
+  destruct (receive_abs_f_reduce Fresh HwA HwB) as (Em & _). cbv zeta in Em.
+  destruct (receive_fresh_proof H hdr d A B' HwA HwB' (links_ok_filter B Hlinks) Hfaith Hm) as (_ & _ & Hv & _).
+  cbv zeta in Hv. rewrite <- Em in Hv.
+  set (R := ds_map r) in *. destruct HwB as [HsB HcB].
+  assert (Hent : forall sb bb, In (sb, bb) B ->
+            exists x, alookup (st_path sb) R = Some x /\ same_file DMetadata (de_stat x) (F sb) = true).
+  { intros sb bb Hin. specialize (Hv (st_path sb)). rewrite efind_filter_entries in Hv.
+    pose proof (efind_in_sorted B (sb, bb) HsB Hin) as Ef. simpl in Ef. rewrite Ef in Hv. cbn [option_map fst snd] in Hv.
+    destruct (alookup (st_path sb) R) as [x|]; [|destruct Hv]. exists x. split; auto. apply Hv. }
+  unfold receive_abs_f.
+  rewrite (resync_noop_gen F DMetadata (map fst (dest_listing B R)) (map fst B)); [reflexivity|].
+  unfold dest_listing. rewrite map_map.
+  assert (X : forall l, (forall e, In e l -> In e B) ->
+            Forall2 (fun a b => st_path a = st_path b /\ same_file DMetadata a (F b) = true)
+              (map (fun e => fst (match alookup (st_path (fst e)) R with
+                                  | Some x => (set_path (de_stat x) (st_path (fst e)), de_bytes x)
+                                  | None => e end)) l) (map fst l)).
+  { induction l as [|[sb bb] l IH]; intros Hl; cbn [map fst snd]; constructor.
+    - destruct (Hent sb bb (Hl _ (or_introl eq_refl))) as (x & Hx & Hs). rewrite Hx. cbn [fst].
+      split; [reflexivity|]. rewrite same_file_set_path. exact Hs.
+    - apply IH. intros e He. apply Hl. right; auto. }
+  apply X. auto.
+Qed.
+
 End Red.
 End Filt.
 
